@@ -33,7 +33,8 @@ The literal stack loop of `write_at_pathbuf` (`Model.C04.writeLoop`, two vectors
 theorems above are about: PROVED equal (same id, same number of `out` calls, same cache, stores
 with the same content) when the cache below the written tree is at most ONE level deep
 (`write_loop_eq_recursion_depth0`, `write_loop_eq_recursion_depth1`; `write_loop_refines_shallow`
-carries `write_refines` over to the loop for such editors). For deeper caches the equality is NOT
+and `cursor_write_loop_refines_shallow` carry `write_refines` / `cursor_write_refines` over to the
+loop for such editors). For deeper caches the equality is NOT
 proved; there the driver compares loop and recursion on every write (`writeChecked`).
 -/
 namespace GixModel.Props.C04
@@ -249,6 +250,34 @@ theorem write_loop_refines_shallow (hash : List Entry → Bytes) (hh : HashOk ha
     rw [w1] at hw
     cases hw
     exact ⟨calls, ed', root, store2, w1, e3 ▸ e2, fun i => (e4 i).symm, w2, w3, w4, w5, w6⟩
+
+/-- The same for `Cursor::write` (`WriteMode::FromCursor`) when the cache below the cursor is at
+most one level deep: the literal loop returns the id, call count and cache of `cursorWrite` and a
+store with the same content, so `cursor_write_refines` holds for what the loop returns. -/
+theorem cursor_write_loop_refines_shallow (hash : List Entry → Bytes) (hh : HashOk hash) (ed : Ed)
+    (h : InvW hash ed) (pfx : Path) (t : List Entry) (hP : aget pfx ed.trees = some t)
+    (hshallow : ∀ K t', aget K ed.trees = some t' → pfx <+: K → K.length ≤ pfx.length + 1) :
+    ∃ calls ed' root store2, cursorWrite hash ed pfx = .ok (hash root) calls ed' ∧
+      writeAtLoop hash { ed with pathBuf := pfx } true = .done (hash root) calls ed'.trees store2 ∧
+      (∀ i, aget i store2 = aget i ed'.store) ∧ InvW hash ed' ∧
+      aget (hash root) ed'.store = some root ∧ Canon ed'.store root ∧
+      (∀ q, q ≠ [] → absStore ed'.store root q = abs ed (pfx ++ q)) ∧ abs ed' = abs ed ∧
+      (aget pfx ed'.trees).isSome = true := by
+  obtain ⟨calls, ed', root, w1, w2, w3, w4, w5, w6, w7⟩ := cursor_write_refines hash hh ed h pfx t hP
+  have hd1 : Depth1 (aerase pfx ed.trees) pfx t := by
+    intro k hk e he hd
+    cases hg : aget (pfx ++ [k.1.name] ++ [e.name]) ed.trees with
+    | none => exact aget_aerase_none hg
+    | some t' =>
+      have := hshallow _ t' hg (by rw [List.append_assoc]; exact List.prefix_append _ _)
+      simp at this
+  obtain ⟨id, calls2, ed2, trees2, store2, e1, e2, e3, e4⟩ :=
+    GixModel.C04.write_loop_eq_recursion_depth1 hh { ed with pathBuf := pfx } true t hP
+      (h.inv.trees pfx t hP) hd1
+  have hw : cursorWrite hash ed pfx = .ok id calls2 ed2 := e1
+  rw [w1] at hw
+  cases hw
+  exact ⟨calls, ed', root, store2, w1, e3 ▸ e2, fun i => (e4 i).symm, w2, w3, w4, w5, w6, w7⟩
 
 -- non-vacuity of the shallow-cache hypothesis: after `upsert a/b` the cache holds `[]` and `[a]`
 -- (one level), and loop and recursion both make 2 `out` calls and return the same id
